@@ -244,9 +244,17 @@ impl RetryBudget for TokenBucketBudget {
 
     fn deposit(&self) {
         const SCALE: u64 = 1000;
-        let current = self.tokens.load(Ordering::Relaxed);
-        let new_tokens = (current + SCALE).min(self.max_tokens);
-        self.tokens.store(new_tokens, Ordering::Relaxed);
+        loop {
+            let current = self.tokens.load(Ordering::Relaxed);
+            let new_tokens = current.saturating_add(SCALE).min(self.max_tokens);
+            if self
+                .tokens
+                .compare_exchange_weak(current, new_tokens, Ordering::Relaxed, Ordering::Relaxed)
+                .is_ok()
+            {
+                return;
+            }
+        }
     }
 
     fn balance(&self) -> usize {
@@ -326,11 +334,19 @@ impl RetryBudget for AimdBudget {
 
     fn deposit(&self) {
         let current_max = self.limit_controller.limit() as u64;
-        let current = self.tokens.load(Ordering::Relaxed);
 
         // Additive increase: add deposit amount, cap at current max
-        let new_tokens = (current + self.deposit_amount).min(current_max);
-        self.tokens.store(new_tokens, Ordering::Relaxed);
+        loop {
+            let current = self.tokens.load(Ordering::Relaxed);
+            let new_tokens = current.saturating_add(self.deposit_amount).min(current_max);
+            if self
+                .tokens
+                .compare_exchange_weak(current, new_tokens, Ordering::Relaxed, Ordering::Relaxed)
+                .is_ok()
+            {
+                break;
+            }
+        }
 
         // Also slowly increase the max back toward absolute max via controller
         self.limit_controller.record_success();
